@@ -256,7 +256,9 @@ def replay(w):
 TECHNIQUE = "Lean 4 proof of the option-resolution / conditional post-processing decision logic and of no-leak over all call histories; exhaustive correspondence over the finite configuration grid"
 LEVEL_TEXT = ("Kernel-checked: option_resolution, grid_exhaustive (all 27 x 8 cases), call_sees_only_args_and_current_flags (every history of flag writes and "
               "calls, by induction), sanitize_off_as_authored, resolve_off_markup_uris_untouched, both_off_identity, plain_text_untouched, "
-              "element_uri_independent_of_options, empty_allowlist (from M-uri). Tie: the whole 432-configuration grid and call pairs are run on the real "
+              "element_uri_independent_of_options, empty_allowlist (from M-uri); on the real pop() chain of M-mixin (contentOutput): sanitize_off_ignores_sanitizer, sanitize_option_only_sanitizes, "
+              "resolve_off_ignores_resolver, resolve_option_only_resolves, element_uri_resolved_regardless, type_guess_ignores_options (the reported content type -- the plain-text-or-HTML "
+              "guess included -- depends on neither option). Tie: the whole 432-configuration grid and call pairs are run on the real "
               "parse() with spies; observed effective options and transformer call order are compared with the model.")
 LEVEL_NOTE = ("Trusted: Lean kernel + standard axioms; the spies (mock.patch of feedparser.api.convert_file_to_utf8, feedparser.mixin.resolve_relative_uris / "
               "sanitize_html); the markup transformers themselves are parameters here (C03/C04/C13 speak about them).")
